@@ -11,7 +11,7 @@ def sh(cmd, cwd=None, timeout=1800):
 rc, out = sh("git status --porcelain", "/repo")
 if out.strip():
     print("/repo has uncommitted changes:\n" + out); sys.exit(2)
-for d in sorted(glob.glob("/verif/seeded/C*-mut*")):
+for d in sorted(glob.glob("/verif/seeded/C*mut*")):
     name = os.path.basename(d); pid = name.split("-")[0]
     if only and name not in only and pid not in only: continue
     res = {"id": name, "property": pid}
@@ -36,7 +36,7 @@ for d in sorted(glob.glob("/verif/seeded/C*-mut*")):
     print(name, res["status"], res.get("violations", [])[:3], flush=True)
 # merge with previous results for rows not re-run
 prev = {}
-for d in sorted(glob.glob("/verif/seeded/C*-mut*")):
+for d in sorted(glob.glob("/verif/seeded/C*mut*")):
     if os.path.exists(d + "/result.json"):
         prev[os.path.basename(d)] = json.load(open(d + "/result.json"))
 for r in rows:
